@@ -20,6 +20,7 @@ mvars == <<graph, phase, kidsNow, gath, layout, result, path>>
 
 MCLimits == [l2 |-> 7, l3 |-> 1000, l4 |-> 1000]
 MCModes == {"ft", "hbfb"}
+MCModesFT == {"ft"}            \* quick tier: the HarfBuzz-fallback mode is model-checked in the thorough tier (and replayed in both)
 
 MkNode(d, s, c) == [data |-> d, size |-> s, kids |-> <<>>, ext |-> FALSE, ds |-> FALSE, cl |-> FALSE, cov |-> c]
 NextField(n) == 4 + 2 * Len(n.kids)
